@@ -23,8 +23,8 @@ def objHumanSpec (sp : Spec) : Bool :=
     * a passive has a nominal subject, a nominal object and no other prepositional complement (else: "by me" / "by I",
       agreement with the demoted subject, `it` not inverted, promoted pronoun read before it is declined, by-phrase
       before/after the complements);
-    * a prepositional question is asked of a clause without prepositional dependent (else the dependency side raises);
-    * `wod` does not question a human object (`whom` only in the dependency notation);
+    * a prepositional question finds the same prepositional complement in both notations (the constituent notation
+      only looks at the first one, the dependency notation at all of them): `questionPPPh = questionPPDep`;
     * a subject question is asked of a third-person-singular subject (else the two sides reset different features);
     * a tag question is not asked of `cannot` alone (the constituent side raises). -/
 def C08Cond (sp : Spec) (ty : Typ) : Bool :=
@@ -33,8 +33,7 @@ def C08Cond (sp : Spec) (ty : Typ) : Bool :=
   (match ty.int with
    | none => true
    | some i =>
-     (!i.isPPq || (sp.pps.isEmpty && !ty.pas)) &&
-     (!(i == .wod) || !(Gen.ClauseEn.depHumanObjectGetsIntValue && !ty.pas && objHumanSpec sp)) &&
+     (!i.isPPq || ty.pas || decide (questionPPPh i (ppArgs sp) = questionPPDep i (ppArgs sp))) &&
      (!(i == .wos || i == .was) || subjAgrOf sp ty.pas == ⟨.p3, .s⟩) &&
      (!(i == .tag) || hasV (clauseWords sp ty)))
 
@@ -48,6 +47,10 @@ theorem objHuman_obj (sp : Spec) : objHuman (sp.obj.map argTokOfObj) = objHumanS
   cases sp.obj with
   | none => rfl
   | some o => cases o <;> rfl
+
+theorem questionPP_single (i : Int) (x : Str × ArgTok) : questionPPPh i [x] = questionPPDep i [x] := by
+  obtain ⟨p, a⟩ := x
+  by_cases h : prepQualifies i p = true <;> simp [questionPPPh, questionPPDep, h, intPrefix]
 
 /-- under `C08Cond` the two linearisations are the same list (or both undefined) -/
 theorem lin_agree (sp : Spec) (ty : Typ) (hc : C08Cond sp ty = true) : lin .phrase sp ty = lin .dep sp ty := by
@@ -67,22 +70,16 @@ theorem lin_agree (sp : Spec) (ty : Typ) (hc : C08Cond sp ty = true) : lin .phra
     | none => simp [lin, linDep, linPh, linDepPlain, midPh]
     | some i =>
       have hf := hfr i rfl
-      simp only [Bool.and_eq_true, Bool.or_eq_true, Bool.not_eq_true'] at hint
-      obtain ⟨⟨⟨hppq, hwod⟩, hwos⟩, htag⟩ := hint
+      simp only [Bool.and_eq_true, Bool.or_eq_true, Bool.not_eq_true', decide_eq_true_eq] at hint
+      obtain ⟨⟨hppq, hwos⟩, htag⟩ := hint
       cases i
       case woi | wai | whe | whn =>
-        have hp : pps = [] := by simpa [Int.isPPq] using hppq
-        subst hp
-        simp [lin, linDep, linPh, linDepPlain, midPh, ppArgs, questionPPPh, ppToks, hf (by rfl)]
+        have he := hppq
+        simp [Int.isPPq] at he
+        simp [lin, linDep, linPh, linDepPlain, midPh, he, hf (by rfl)]
       case wod =>
-        have : objHuman (obj.map argTokOfObj) = objHumanSpec ⟨subj, verb, t, obj, pps⟩ :=
-          objHuman_obj ⟨subj, verb, t, obj, pps⟩
-        have hw : (Gen.ClauseEn.depHumanObjectGetsIntValue && objHumanSpec ⟨subj, verb, t, obj, pps⟩) = false := by
-          simpa using hwod
-        simp [lin, linDep, linPh, linDepPlain, midPh, hf (by rfl), this, Gen.ClauseEn.phraseHumanObjectGetsIntValue] at hw ⊢
-        intro h1 h2
-        rw [hw h1] at h2
-        cases h2
+        simp [lin, linDep, linPh, linDepPlain, midPh, hf (by rfl), Gen.ClauseEn.phraseHumanObjectGetsIntValue,
+          Gen.ClauseEn.depHumanObjectGetsIntValue]
       case tag =>
         have hv : hasV (clauseWords ⟨subj, verb, t, obj, pps⟩ ⟨neg, false, perf, prog, contr, exc, md, some .tag⟩) = true := by
           simpa using htag
@@ -106,10 +103,12 @@ theorem lin_agree (sp : Spec) (ty : Typ) (hc : C08Cond sp ty = true) : lin .phra
           | none => simp [lin, linDep, linPh, linDepPlain, midPh, ppArgs, byArg, demote, argTokOfSubj]
           | some i =>
             have hf := hfr i rfl
-            simp only [Bool.and_eq_true, Bool.or_eq_true, Bool.not_eq_true'] at hint
-            obtain ⟨⟨⟨hppq, hwod⟩, hwos⟩, htag⟩ := hint
+            simp only [Bool.and_eq_true, Bool.or_eq_true, Bool.not_eq_true', decide_eq_true_eq] at hint
+            obtain ⟨⟨hppq, hwos⟩, htag⟩ := hint
             cases i
-            case woi | wai | whe | whn => simp [Int.isPPq] at hppq
+            case woi | wai | whe | whn =>
+              simp [lin, linDep, linPh, linDepPlain, midPh, hf (by rfl), ppArgs, byArg, demote, argTokOfSubj,
+                questionPP_single]
             case tag =>
               have hv : hasV (clauseWords ⟨.np b, verb, t, some (.np a), []⟩
                   ⟨neg, true, perf, prog, contr, exc, md, some .tag⟩) = true := by simpa using htag
